@@ -486,6 +486,28 @@ def run(ctx, V):
                 V.disagreement("counts after changing Pyramid.depth equal those of a fresh pyramid of that depth",
                                dict(pyramid=[kind, depth, [list(q_) for q_ in table], [0, 0, 0], False], new_depth=depth - 1),
                                list(want2), list(got2), True)
+    # the public tile counter of toast.py: count_tiles_matching_filter(depth, filter, bottom_only) equals the
+    # enumeration it stands for (seeded change C13-n dropped bottom_only on the way to the generator)
+    n_ctm = 0
+    from toasty import toast as _T
+    for c in cases:
+        kind, depth, table, apex, sub = c
+        if kind == 0 or sub or depth < 1 or n_ctm >= (60 if tier == "quick" else 600):
+            continue
+        tset = set(table)
+        flt = (lambda t: True) if kind == 1 else (lambda t, tset=tset: tuple(t.pos) in tset)
+        tree, _live, _leaves, _ops = ref_sets(*c)
+        for bottom_only in (True, False):
+            want = sum(1 for p in tree if p[0] == depth) if bottom_only else sum(1 for p in tree if p[0] >= 1)
+            try:
+                got = _T.count_tiles_matching_filter(depth, flt, bottom_only=bottom_only)
+            except Exception as e:  # noqa: BLE001
+                got = repr(e)
+            n_ctm += 1
+            if got != want:
+                V.disagreement("count_tiles_matching_filter = number of tiles the filtered enumeration yields",
+                               dict(pyramid=[kind, depth, [list(p) for p in table], [0, 0, 0], False], bottom_only=bottom_only),
+                               want, got, True)
     # the reported counts must also equal what PARALLEL walks and leaf visits touch
     n_par = 0
     import os
@@ -532,5 +554,5 @@ def run(ctx, V):
                      "(density 0.3-1.0, accept-but-childless shapes) depth 1-5 with random apexes; non-trivial = "
                      "distinct (kind,depth,table,apex,sub) with a pruned subtree or an active sub-pyramid; "
                      "algebra: random positions to depth 60 incl. error branches",
-                exhaustive_part=n_exh, subpyramid_restriction_checks=n_sub, parallel_count_checks=n_par, instance_reuse_checks=n_reuse,
+                exhaustive_part=n_exh, count_tiles_matching_filter_checks=n_ctm, subpyramid_restriction_checks=n_sub, parallel_count_checks=n_par, instance_reuse_checks=n_reuse,
                 input_histogram=hist, samples=samples)
